@@ -35,7 +35,9 @@ func mkCfg(r *simrt.Run, base map[string]int, quickSteps, thoroughSteps int) Sim
 	cfg.Steps = steps/2 + r.Draw("cfg", steps)
 	for _, o := range opTable {
 		wgt := base[o.name]
-		switch r.Draw("cfg", 4) {
+		// one stream per operation: registering further operations (other property files) must
+		// not shift the choices of a recorded tape
+		switch r.Draw("cfgw:"+o.name, 4) {
 		case 0:
 			wgt = wgt / 3
 		case 1:
